@@ -407,4 +407,4 @@ def run_case(spec, rec):
 
 
 def subchecks(tier):
-    return [Sub("history", history(), run_case, quick=24000, thorough=600000)]
+    return [Sub("history", history(), run_case, quick=48000, thorough=800000)]
